@@ -523,7 +523,22 @@ func (ex *Exec) applyModifies(env *Env, st *State, m ModTarget) {
 		}
 	case "expr":
 		// *p or p[..]: forget the object an argument designates
-		v := ex.evalSpec(env, m.Expr)
+		target := m.Expr
+		if u, ok := target.(*EUnary); ok && u.Op == "*" {
+			target = u.X
+		}
+		v := ex.evalSpec(env, target)
+		if _, isIface := v.T.Underlying().(*types.Interface); isIface {
+			if v.I == nil {
+				// unknown dynamic value: cannot tell what it designates
+				if ex.discover != nil {
+					ex.discover.all = true
+				}
+				ex.havocAllHeap(st)
+				return
+			}
+			v = v.I
+		}
 		switch u := v.T.Underlying().(type) {
 		case *types.Pointer:
 			l := ex.resolve(v)
